@@ -186,10 +186,25 @@ def check(run):
                 if log:
                     nontrivial += 1
                 if not same:
+                    # which blocks differ (optimized file vs file rebuilt from the log)
+                    diffs = []
+                    try:
+                        with lock:
+                            b1, b2 = blocks_of(optf), blocks_of(repf)
+                        for (c1, w1, i1, x), (c2, w2, i2, y) in zip(b1, b2):
+                            if x != y:
+                                diffs.append({"contract": c1, "where": w1, "index": i1,
+                                              "optimized": " ".join(pipeline._plain(x)), "replayed": " ".join(pipeline._plain(y))})
+                    except Exception as e:  # noqa
+                        diffs.append({"error": str(e)[:200]})
+                    doc = None
+                    if "synth" in base:
+                        with open(path) as fh:
+                            doc = json.load(fh)
                     with lock:
                         run.report({"kind": "own-log-differs", "options": " ".join(opts)},
-                                   "replay of the run's own log differs from the optimized file on %s %s" % (base, opts),
-                                   {"input": path, "options": opts, "log": log}, True)
+                                   "replay of the run's own log differs from the optimized file on %s %s: %s" % (base, opts, str(diffs[:1])[:400]),
+                                   {"input": path if doc is None else doc, "options": opts, "log": log, "differing_blocks": diffs[:10]}, True)
                 # tampered logs
                 all_ids = sorted({x for v in log.values() for x in v})
                 orig_blocks = None
